@@ -155,7 +155,7 @@ impl Monitor for C10 {
         v
     }
     fn mandatory_buckets(&self, _tier: Tier) -> Vec<String> {
-        ["full_key_sweeps", "more_than_65536_terms", "binary_round_trip_swept", "obo_loader_swept", "binary_decoder_with_flags", "alternating_lookups", "clone_swept", "iterator_protocol", "id_0_present", "id_9999999_present", "add_beyond_id_space_attempted", "name_queries"]
+        ["full_key_sweeps", "more_than_65536_terms", "binary_round_trip_swept", "obo_loader_swept", "binary_decoder_with_flags", "alternating_lookups", "clone_swept", "clone_from_swept", "iterator_protocol", "id_0_present", "id_9999999_present", "add_beyond_id_space_attempted", "name_queries"]
             .iter()
             .map(|s| (*s).to_string())
             .collect()
@@ -402,6 +402,23 @@ impl Monitor for C10 {
             match crate::drive::via_bytes_variant(&bf, v, &mut rng).1 {
                 Ok(bo) => {
                     out.bucket("binary_decoder_with_flags");
+                    // every way of iterating yields every term, obsolete or not
+                    {
+                        let expect: BTreeSet<u32> = bf.terms.iter().map(|t| t.id).collect();
+                        let a: Vec<u32> = bo.iter().map(|t| t.id().as_u32()).collect();
+                        let b: Vec<u32> = bo.hpos().map(|t| t.id().as_u32()).collect();
+                        let c: Vec<u32> = (&bo).into_iter().map(|t| t.id().as_u32()).collect();
+                        let mut d: Vec<u32> = Vec::new();
+                        for t in &bo {
+                            d.push(t.id().as_u32());
+                        }
+                        for (name, seq) in [("iter()", &a), ("hpos()", &b), ("(&ontology).into_iter()", &c), ("for t in &ontology", &d)] {
+                            let set: BTreeSet<u32> = seq.iter().copied().collect();
+                            out.check(set == expect && seq.len() == expect.len() && bo.len() == expect.len(), "C10", "iteration_with_obsolete_terms", || {
+                                format!("{name} over a v{v} ontology with obsolete terms yields {} terms ({} distinct), len() = {}, records in the file: {}", seq.len(), set.len(), bo.len(), expect.len())
+                            });
+                        }
+                    }
                     for t in &bf.terms {
                         bump(&mut out.events, "Ontology::hpo");
                         let got = bo.hpo(t.id).map(|x| (x.name().to_string(), x.is_obsolete(), x.replacement_id().map(|r| r.as_u32())));
@@ -724,6 +741,53 @@ impl Monitor for C10 {
                         Err(p) => out.violate("C10", "panic:hpo_sweep_clone", format!("{} at {}", p.message, p.location)),
                     }
                     record_checks(&cl, &f.recs, "/clone", &mut rng, &mut out);
+                    // clone_from into a destination that held OTHER terms: every slot of the old content
+                    // is gone afterwards
+                    if added.len() <= 64 {
+                        let other: Vec<u32> = (0..rng.urange(1, 30)).map(|_| rng.range(0, 9_999_999) as u32).chain([2u32, 3, 9_999_998]).collect();
+                        let dst = guard(|| {
+                            let mut b2 = Builder::new();
+                            for id in &other {
+                                b2.new_term(&format!("old content {id}"), *id);
+                            }
+                            let mut d = b2.terms_complete().connect_all_terms().calculate_information_content().unwrap().build_minimal();
+                            d.clone_from(&ont);
+                            d
+                        });
+                        match dst {
+                            Ok(d) => {
+                                out.bucket("clone_from_swept");
+                                let r = guard(|| {
+                                    let mut bad: Vec<String> = Vec::new();
+                                    for id in 0..=ID_SPACE {
+                                        let got = d.hpo(id).map(|t| (t.id().as_u32(), t.name().to_string()));
+                                        let exp = added.contains(&id).then(|| (id, names[&id].clone()));
+                                        if got != exp && bad.len() < 5 {
+                                            bad.push(format!("after clone_from: hpo({id}) = {got:?}, expected {exp:?} (the destination held {} other terms before)", other.len()));
+                                        }
+                                    }
+                                    let its: BTreeSet<u32> = d.iter().map(|t| t.id().as_u32()).collect();
+                                    if its != added || d.len() != added.len() {
+                                        bad.push(format!("after clone_from: iteration yields {} terms, len() = {}, source has {}", its.len(), d.len(), added.len()));
+                                    }
+                                    bad
+                                });
+                                bump_n(&mut out.events, "Ontology::hpo", u64::from(ID_SPACE) + 1);
+                                out.bucket("full_key_sweeps");
+                                match r {
+                                    Ok(bad) => {
+                                        out.comparisons += u64::from(ID_SPACE) + 1;
+                                        for b in bad {
+                                            out.violate("C10", "lookup_after_clone_from", b);
+                                        }
+                                    }
+                                    Err(p) => out.violate("C10", "panic:hpo_sweep_clone_from", format!("{} at {}", p.message, p.location)),
+                                }
+                                record_checks(&d, &f.recs, "/clone_from", &mut rng, &mut out);
+                            }
+                            Err(p) => out.violate("C10", "panic:clone_from", format!("{} at {}", p.message, p.location)),
+                        }
+                    }
                     // and the original is not disturbed by having been cloned
                     for id in added.iter().take(50).chain([0u32, 1, 2].iter()) {
                         let got = ont.hpo(*id).map(|t| t.name().to_string());
